@@ -162,6 +162,17 @@ where
                     }
                 }
             }.boxed()).detach();
+
+            // Every other reference to the desync may have gone away since we upgraded ours. We can be called from anywhere a waker
+            // can be (in particular from a job running on this very desync, which dropping it here would wait for forever), so the last
+            // reference is disposed of in the same way as everything else a pipe lets go of (into_inner() rather than try_unwrap():
+            // whichever of several racing owners lets go last must be the one that ends up with the value)
+            if let Some(last_reference) = Arc::into_inner(target) {
+                REFERENCE_CHUTE.desync(move |_| {
+                    use std::mem;
+                    mem::drop(last_reference);
+                });
+            }
         } else {
             // Stream has woken up but the desync is no longer listening
             let old_poll_fn = arc_self.poll_fn.lock().unwrap().take();
